@@ -1,10 +1,181 @@
 import CoxeterVerif.Driver.Proto
+import CoxeterVerif.Model.Codec
 
+/-!
+  Driver ops of C19 (model of the representation code, `Model/Codec.lean`).
+
+  Wire format (all on top of `i<int>` / scalar tokens of Proto.lean):
+    str   := len code*                     (unicode code points)
+    val   := 0 str | 1 sc | 2 n sc* | 3 rows (n sc*)* | 4 rows (n i*)* | 5        (5 = live array)
+    dict  := n (str val)*
+    shape := cls params      cls = 0 circle r c(3) | 1 sphere r c(3) | 2 ellipse a b c(3)
+             | 3 ellipsoid a b c cen(3) | 4 polygon n v3* normal(3) | 5 convexPolygon (same)
+             | 6 spheropolygon n v3* r normal(3) | 7 polyhedron n v3* faces | 8 convexPolyhedron (same)
+             | 9 spheropolyhedron n v3* r
+    ext   := planarOk isSimple isConvex normalOk hullAll  reorder(n v3*; n = 0: identity)  hullFaces
+    reply `E:<kind>` when the model raises.
+-/
 namespace OpsC19
+open C19
 
-/-- driver ops of C19. `none` = unknown op. -/
+section io
+variable {α : Type} [Codec α]
+
+def rdStr (c : Ctx) : Rd String := do
+  let n ← Rd.nat c
+  let mut cs : Array Char := #[]
+  for _ in [0:n] do
+    cs := cs.push (Char.ofNat (← Rd.nat c))
+  pure (String.ofList cs.toList)
+
+def rdBool (c : Ctx) : Rd Bool := do let i ← Rd.int c; pure (i != 0)
+
+def rdVal (c : Ctx) : Rd (Val α) := do
+  let tag ← Rd.nat c
+  match tag with
+  | 0 => do let s ← rdStr c; pure (.str s)
+  | 1 => do let x ← Rd.sc c; pure (.num x)
+  | 2 => do let v ← Rd.list c (Rd.sc c); pure (.vec v)
+  | 3 => do let m ← Rd.list c (Rd.list c (Rd.sc c)); pure (.mat m)
+  | 4 => do let f ← Rd.list c (Rd.list c (Rd.nat c)); pure (.idx f)
+  | 5 => pure .live
+  | _ => throw s!"bad value tag {tag}"
+
+def rdDict (c : Ctx) : Rd (Dict α) :=
+  Rd.list c (do let k ← rdStr c; let v ← rdVal c; pure (k, v))
+
+def rdShape (c : Ctx) : Rd (Shape α) := do
+  let cls ← Rd.nat c
+  match cls with
+  | 0 => do let r ← Rd.sc c; let cen ← Rd.v3 c; pure (.circle r cen)
+  | 1 => do let r ← Rd.sc c; let cen ← Rd.v3 c; pure (.sphere r cen)
+  | 2 => do let a ← Rd.sc c; let b ← Rd.sc c; let cen ← Rd.v3 c; pure (.ellipse a b cen)
+  | 3 => do
+      let a ← Rd.sc c; let b ← Rd.sc c; let cc ← Rd.sc c; let cen ← Rd.v3 c
+      pure (.ellipsoid a b cc cen)
+  | 4 => do let vs ← Rd.list c (Rd.v3 c); let n ← Rd.v3 c; pure (.polygon vs n)
+  | 5 => do let vs ← Rd.list c (Rd.v3 c); let n ← Rd.v3 c; pure (.convexPolygon vs n)
+  | 6 => do
+      let vs ← Rd.list c (Rd.v3 c); let r ← Rd.sc c; let n ← Rd.v3 c
+      pure (.spheropolygon vs r n)
+  | 7 => do
+      let vs ← Rd.list c (Rd.v3 c); let f ← Rd.list c (Rd.list c (Rd.nat c))
+      pure (.polyhedron vs f)
+  | 8 => do
+      let vs ← Rd.list c (Rd.v3 c); let f ← Rd.list c (Rd.list c (Rd.nat c))
+      pure (.convexPolyhedron vs f)
+  | 9 => do let vs ← Rd.list c (Rd.v3 c); let r ← Rd.sc c; pure (.spheropolyhedron vs r)
+  | _ => throw s!"bad class tag {cls}"
+
+def rdExt (c : Ctx) : Rd (Ext α) := do
+  let planarOk ← rdBool c
+  let isSimple ← rdBool c
+  let isConvex ← rdBool c
+  let normalOk ← rdBool c
+  let hullAll ← rdBool c
+  let re ← Rd.list c (Rd.v3 c)
+  let hf ← Rd.list c (Rd.list c (Rd.nat c))
+  pure { planarOk := fun _ => planarOk, isSimple := fun _ => isSimple, isConvex := fun _ => isConvex,
+         reorder := fun vs => if re.isEmpty then vs else re, normalOk := fun _ _ => normalOk,
+         hullAll := fun _ => hullAll, hullFaces := fun _ => hf }
+
+def join (l : List String) : String := " ".intercalate (l.filter (· ≠ ""))
+
+def outStr (s : String) : String :=
+  join (Out.int s.length :: s.toList.map fun ch => Out.int ch.toNat)
+
+def outScs (l : List α) : String := join (Out.int l.length :: l.map Out.sc)
+def outNats (l : List Nat) : String := join (Out.int l.length :: l.map fun (n : Nat) => Out.int (Int.ofNat n))
+
+def outVal : Val α → String
+  | .str s => join ["i0", outStr s]
+  | .num x => join ["i1", Out.sc x]
+  | .vec v => join ["i2", outScs v]
+  | .mat m => join ("i3" :: Out.int m.length :: m.map outScs)
+  | .idx f => join ("i4" :: Out.int f.length :: f.map outNats)
+  | .live => "i5"
+
+def outDict (d : Dict α) : String :=
+  join (Out.int d.length :: d.map fun e => join [outStr e.1, outVal e.2])
+
+def outV3s (vs : List (V3 α)) : String := join (Out.int vs.length :: vs.map Out.v3)
+def outFaces (f : List (List Nat)) : String := join (Out.int f.length :: f.map outNats)
+
+def outShape : Shape α → String
+  | .circle r c => join ["i0", Out.sc r, Out.v3 c]
+  | .sphere r c => join ["i1", Out.sc r, Out.v3 c]
+  | .ellipse a b c => join ["i2", Out.sc a, Out.sc b, Out.v3 c]
+  | .ellipsoid a b c cen => join ["i3", Out.sc a, Out.sc b, Out.sc c, Out.v3 cen]
+  | .polygon vs n => join ["i4", outV3s vs, Out.v3 n]
+  | .convexPolygon vs n => join ["i5", outV3s vs, Out.v3 n]
+  | .spheropolygon vs r n => join ["i6", outV3s vs, Out.sc r, Out.v3 n]
+  | .polyhedron vs f => join ["i7", outV3s vs, outFaces f]
+  | .convexPolyhedron vs f => join ["i8", outV3s vs, outFaces f]
+  | .spheropolyhedron vs r => join ["i9", outV3s vs, Out.sc r]
+
+def outExcept {β : Type} (f : β → String) : Except String β → String
+  | .ok x => f x
+  | .error k => "E:" ++ k
+
+end io
+
+/-- ops of C19. `none` = unknown op. -/
 def run (α : Type) [Scalar α] [Codec α] (op : String) (c : Ctx) : Option (Rd String) :=
   match op with
+  | "c19.gsd" => some do
+      -- in: shape ; out: dict (`gsd_shape_spec`)
+      let s : Shape α ← rdShape c
+      pure (outDict (gsdSpec s))
+  | "c19.fromgsd" => some do
+      -- in: dict dim ext ; out: shape | E:kind (`from_gsd_type_shapes`)
+      let d : Dict α ← rdDict c
+      let dim ← Rd.nat c
+      let E : Ext α ← rdExt c
+      pure (outExcept outShape (fromGsd E d dim))
+  | "c19.repr" => some do
+      -- in: shape ; out: fn kwargs (`__repr__` as a call)
+      let s : Shape α ← rdShape c
+      let r := reprCall s
+      pure (join [outStr r.fn, outDict r.kwargs])
+  | "c19.eval" => some do
+      -- in: fn kwargs ext ; out: shape | E:kind
+      let fn ← rdStr c
+      let kw : Dict α ← rdDict c
+      let E : Ext α ← rdExt c
+      pure (outExcept outShape (evalCall E ⟨fn, kw⟩))
+  | "c19.tojson" => some do
+      -- in: known(list str) raising(list (str name, str kind)) attrs(list str) ; out: keys | E:kind
+      let known ← Rd.list c (rdStr c)
+      let raising ← Rd.list c (do let n ← rdStr c; let k ← rdStr c; pure (n, k))
+      let attrs ← Rd.list c (rdStr c)
+      let val : String → Except String (Val α) := fun a =>
+        match raising.lookup a with
+        | some k => .error k
+        | none => .ok (.str a)
+      pure (outExcept (fun d => join (Out.int d.length :: (Dict.keys d).map outStr))
+        (toJson (getattrOf known val) attrs []))
+  | "c19.mapkeys" => some do
+      -- in: dict ; out: dict renamed with the model's `_hoomd_dict_mapping`
+      let d : Dict α ← rdDict c
+      pure (outDict (mapDictKeys d hoomdDictMapping))
+  | "c19.mapping" => some do
+      -- out: the model's `_hoomd_dict_mapping` constant
+      pure (join (Out.int hoomdDictMapping.length ::
+        hoomdDictMapping.map fun p => join [outStr p.1, outStr p.2]))
+  | "c19.tohoomd" => some do
+      -- in: shape delta(3) scalars(list (str, sc)) tensor(rows)
+      -- the centroid getter is `mean(verts) + delta`; measures are the given values
+      -- out: dict as built (5 = live array) then the shape the object is left as | E:kind
+      let s : Shape α ← rdShape c
+      let delta : V3 α ← Rd.v3 c
+      let scalars ← Rd.list c (do let n ← rdStr c; let x : α ← Rd.sc c; pure (n, x))
+      let tensor : List (List α) ← Rd.list c (Rd.list c (Rd.sc c))
+      let look : String → α := fun n => (scalars.lookup n).getD (Scalar.lit 0)
+      let M : Meas α :=
+        { cen := fun vs => V3.sdiv (V3.sum vs) (Scalar.ofNat vs.length) + delta,
+          scalar := fun n _ => look n, tensor := fun _ => tensor,
+          scalarC := fun n _ => look n, tensorC := fun _ => tensor }
+      pure (outExcept (fun r => join [outDict r.1, outShape r.2]) (toHoomdRaw M s))
   | _ => none
 
 end OpsC19
